@@ -13,7 +13,7 @@ from ..selftest import Mutant
 
 ID = "C17"
 TECHNIQUE = "positional-convention table agreement (K6), guard/unreachability of tree mutations under 'winner is this' (K2) and resolver provenance (K5) in Merge3Merger; the winner tables themselves are decided under C18 (ast)"
-FLOOR = 18
+FLOOR = 21
 MG = "breezy/merge.py"
 M = "Merge3Merger"
 EXPLANATION = """
